@@ -54,7 +54,7 @@ func Check() *engine.Check {
 		Shards: func(string) int { return 16 },
 		Budget: func(tier string) time.Duration {
 			if tier == "thorough" {
-				return 25 * time.Minute
+				return 40 * time.Minute // ~6 min on 16 idle cores; generous because the clock-frozen workers cannot be rescheduled
 			}
 
 			return 4 * time.Minute
